@@ -51,6 +51,45 @@ def label_vectors(cfg, seed):
         yield y
 
 
+# "Points with negative (unknown) labels never appear in any constraint": every negative code is an unknown label, and the label vector may
+# arrive in any integer dtype, as floats or as a list -- the constraints are those of the same labels held as an int64 array
+LABEL_REPS = ('unknown=-2', 'unknown=-1/-3/-128 int8', 'uint8', 'uint16', 'float64', 'list', 'int32', 'int16 read-only')
+
+
+def recode(y, rep):
+  if rep == 'unknown=-2':
+    return tuple(-2 if v < 0 else v for v in y)
+  if rep.startswith('unknown=-1/-3/-128'):
+    codes = (-1, -3, -128)
+    return tuple(codes[i % 3] if v < 0 else v for i, v in enumerate(y))
+  return tuple(y)
+
+
+class LabelsAs(object):
+  def __init__(self, rep, y):
+    self.rep, self.y = rep, y
+
+  def fresh(self):
+    rep, y = self.rep, self.y
+    if rep is None or rep.startswith('unknown=-2'):
+      return np.array(y)
+    if rep.endswith(' int8'):
+      return np.array(y, dtype=np.int8)
+    if rep in ('uint8', 'uint16'):
+      return np.array(y, dtype=rep)
+    if rep == 'float64':
+      return np.array(y, dtype=float)
+    if rep == 'list':
+      return list(y)
+    if rep == 'int32':
+      return np.array(y, dtype=np.int32)
+    if rep == 'int16 read-only':
+      a = np.array(y, dtype=np.int16)
+      a.setflags(write=False)
+      return a
+    raise RuntimeError('stand-in: unknown label representation %r' % rep)
+
+
 def class_sizes(y):
   out = {}
   for v in y:
@@ -113,20 +152,20 @@ def as_index_list(a, name):
   return [int(v) for v in a], None
 
 
-def check_pairs(ml, y, n_c, same_length, seeds):
+def check_pairs(ml, y, n_c, same_length, seeds, labrep=None):
   from metric_learn.constraints import wrap_pairs
   fn = 'Constraints(y).positive_negative_pairs(n_constraints, same_length, random_state)'
-  ya = np.array(y)
+  ya = LabelsAs(labrep, y)
   n = len(y)
   produced = 0
   for s in seeds:
-    inp = dict(n_constraints=n_c, same_length=same_length, random_state=s)
+    inp = dict(n_constraints=n_c, same_length=same_length, random_state=s, labels_given_as=labrep or 'int64 array')
     outs = []
     for rep in range(2):
       with warnings.catch_warnings(record=True) as w:
         warnings.simplefilter('always')
         try:
-          out = ml.Constraints(ya.copy()).positive_negative_pairs(n_c, same_length=same_length, random_state=s)
+          out = ml.Constraints(ya.fresh()).positive_negative_pairs(n_c, same_length=same_length, random_state=s)
         except ValueError as e:
           if 'not enough values to unpack' in str(e):
             out = None             # the sampler drew no pair of one kind: outside the property (ghost precondition)
@@ -203,20 +242,20 @@ def check_pairs(ml, y, n_c, same_length, seeds):
   return None if produced else 'skipped'
 
 
-def check_chunks(ml, y, n_chunks, chunk_size, seeds):
+def check_chunks(ml, y, n_chunks, chunk_size, seeds, labrep=None):
   fn = 'Constraints(y).chunks(n_chunks, chunk_size, random_state)'
-  ya = np.array(y)
+  ya = LabelsAs(labrep, y)
   n = len(y)
   sizes = class_sizes(y)
   capacity = sum(cnt // chunk_size for cnt in sizes.values())
   for s in seeds:
-    inp = dict(n_chunks=n_chunks, chunk_size=chunk_size, random_state=s)
+    inp = dict(n_chunks=n_chunks, chunk_size=chunk_size, random_state=s, labels_given_as=labrep or 'int64 array')
     outs = []
     for rep in range(2):
       with warnings.catch_warnings():
         warnings.simplefilter('ignore')
         try:
-          outs.append(('ok', ml.Constraints(ya.copy()).chunks(n_chunks=n_chunks, chunk_size=chunk_size, random_state=s)))
+          outs.append(('ok', ml.Constraints(ya.fresh()).chunks(n_chunks=n_chunks, chunk_size=chunk_size, random_state=s)))
         except ValueError as e:
           outs.append(('ValueError', str(e)))
         except Exception as e:
@@ -251,15 +290,15 @@ def check_chunks(ml, y, n_chunks, chunk_size, seeds):
   return None
 
 
-def check_triplets(ml, y, X, D2, exact, k_g, k_i, xname):
+def check_triplets(ml, y, X, D2, exact, k_g, k_i, xname, labrep=None):
   fn = 'Constraints(y).generate_knntriplets(X, k_genuine, k_impostor)'
-  ya = np.array(y)
+  ya = LabelsAs(labrep, y)
   n = len(y)
-  inp = dict(X=X.tolist(), k_genuine=k_g, k_impostor=k_i)
+  inp = dict(X=X.tolist(), k_genuine=k_g, k_impostor=k_i, labels_given_as=labrep or 'int64 array')
   with warnings.catch_warnings():
     warnings.simplefilter('ignore')
     try:
-      T = ml.Constraints(ya.copy()).generate_knntriplets(X.copy(), k_g, k_i)
+      T = ml.Constraints(ya.fresh()).generate_knntriplets(X.copy(), k_g, k_i)
     except Exception as e:
       return bad('triplets.no-exception', fn, y, '%s: %s' % (type(e).__name__, e), **inp)
   T = np.asarray(T)
@@ -329,6 +368,7 @@ def cases(tier, seed):
       return r
     return thunk
 
+  nrep = 0
   for y in label_vectors(cfg, seed):
     sizes = class_sizes(y)
     ys = ','.join(str(v) for v in y)
@@ -343,6 +383,24 @@ def cases(tier, seed):
       if sizes and max(sizes.values()) >= cs:
         for nch in PARAMS:
           yield ('chunks y=[%s] n_chunks=%d chunk_size=%d' % (ys, nch, cs), (T_CHUNKS,), wrap(check_chunks, y, nch, cs, seeds))
+    # the same label vector in another representation (one per vector, rotating)
+    nrep += 1
+    rep = LABEL_REPS[nrep % len(LABEL_REPS)]
+    if rep.startswith('uint') and any(v < 0 for v in y):
+      rep = 'unknown=-2' if nrep % 2 else 'unknown=-1/-3/-128 int8'
+    y2 = recode(y, rep)
+    ys2 = '%s as %s' % (','.join(str(v) for v in y2), rep)
+    if len(sizes) >= 2 and max(sizes.values()) >= 2:
+      yield ('pairs y=[%s] n_constraints=3 same_length=False' % ys2, (T_PAIRS, T_PAIRS_, T_WRAP), wrap(check_pairs, y2, 3, False, seeds[:1], rep))
+    if sizes:
+      cs = min(2, max(sizes.values()))
+      for nch in (1, 2):
+        yield ('chunks y=[%s] n_chunks=%d chunk_size=%d' % (ys2, nch, cs), (T_CHUNKS,), wrap(check_chunks, y2, nch, cs, seeds[:1], rep))
+    if len(sizes) >= 2 and min(sizes.values()) >= 2:
+      name, X, D2, exact = pset(len(y), 0)
+      for kg, ki in ((1, 1), (2, 2)):
+        yield ('triplets y=[%s] X=%s k_genuine=%d k_impostor=%d' % (ys2, name, kg, ki), (T_TRIP, T_COMB),
+               wrap(check_triplets, y2, X, D2, exact, kg, ki, name, rep))
     # k-NN triplets: every known class has two members, two known classes
     if len(sizes) >= 2 and min(sizes.values()) >= 2:
       for j in range(cfg['n_psets']):
